@@ -13,6 +13,7 @@ from sa.report import Check
 
 from . import c07
 from .common import (
+    callee_name,
     depends_on,
     flow_of,
     g,
@@ -269,6 +270,16 @@ def pull(repo: Repo, chk: Check) -> None:
         vals = fl.cone(call.args[0], s)
         diffs = subexprs(names, "$a - $b") + subexprs(names, "$a.difference($b)")
         if not diffs:
+            # the same exclusion spelled as a filter: `.. for k in candidates if k not in unsafe`
+            for comp in [c for c in ast.walk(names) if isinstance(c, (ast.ListComp, ast.SetComp, ast.GeneratorExp, ast.DictComp))]:
+                for gen in comp.generators:
+                    for cnd in gen.ifs:
+                        for at in norm.atoms(cnd, True):
+                            m_ = norm.match(T("$k not in $b"), at)
+                            if m_ is not None and isinstance(norm.primary(m_["b"]), ast.Name) and norm.free_names(m_["k"]) <= {
+                                    n.id for n in ast.walk(gen.target) if isinstance(n, ast.Name)}:
+                                diffs.append((at, m_))
+        if not diffs:
             chk.bad("C01.pull", f"{f.key}:difference", s.where(),
                     f"hoisted field names {ast.unparse(norm.primary(names))[:120]} are not a set difference `candidates - unsafe`")
             continue
@@ -281,10 +292,18 @@ def pull(repo: Repo, chk: Check) -> None:
         arm_defined = arm_changed = False
         dom_ok = True
         for a in adds:
-            if has_fact(a, ["val_is_defined_in_block($v, $op.parent_op().body.block)", "val_is_defined_in_block($v, $op.parent_op().body.blocks[0])"], {"op": op}):
-                arm_defined = True
+            # the conditions under which this add is reached: a must-fact, or one operand of an `or` must-fact
+            reached_when: list[ast.expr] = []
             for fact in a.facts:
-                if fact.kind == "atom" and norm.any_match(["$d[$k] != $v", "$d.get($k) != $v", "$v != $d[$k]"], fact.expr) is not None:
+                if fact.kind != "atom":
+                    continue
+                e_ = norm.primary(fact.expr)
+                reached_when.extend(e_.values if isinstance(e_, ast.BoolOp) and isinstance(e_.op, ast.Or) else [e_])
+            for e_ in reached_when:
+                if norm.any_match(["val_is_defined_in_block($v, $op.parent_op().body.block)", "val_is_defined_in_block($v, $op.parent_op().body.blocks[0])"],
+                                  e_, {"op": op}) is not None:
+                    arm_defined = True
+                if norm.any_match(["$d[$k] != $v", "$d.get($k) != $v", "$v != $d[$k]", "$d.get($k, $v) != $v", "$v != $d.get($k, $v)"], e_) is not None:
                     arm_changed = True
             # iteration domain: all setups of this accelerator in the loop body
             outer = [l for l in a.loops if isinstance(l, ast.For)]
@@ -336,6 +355,30 @@ def pull(repo: Repo, chk: Check) -> None:
                 m = norm.any_match(["$v if $v != $n.in_state else $n.out_state", "$n.out_state if $v == $n.in_state else $v",
                                     "$n.out_state if $v is $n.in_state else $v"], sub)
                 ok = ok or m is not None
+    if not ok:
+        # the same replacement spelled as a loop appending to a list that becomes the operands
+        for s in stores:
+            root = norm.primary(s.node.value)
+            while isinstance(root, ast.Call) and isinstance(root.func, ast.Name) and root.func.id in ("tuple", "list") and len(root.args) == 1:
+                root = root.args[0]
+            if not isinstance(root, ast.Name):
+                continue
+            apps = [x for x in fl.calls("append") if x.reachable and norm.match(T("$l.append($_)"), x.node, {"l": root.id}) is not None]
+            took = kept = False
+            for x in apps:
+                lp = [l for l in x.loops if isinstance(l, ast.For) and isinstance(l.target, ast.Name)]
+                if not lp or norm.any_match(["$l.operands"], x.expand(lp[-1].iter), {"l": loop}) is None:
+                    continue
+                var = lp[-1].target.id
+                val = x.expand(x.node.args[0])
+                setup_in = [kw.value for c_ in ast.walk(val) if isinstance(c_, ast.Call) and callee_name(c_) == "SetupOp" for kw in c_.keywords if kw.arg == "in_state"]
+                if isinstance(val, ast.Attribute) and val.attr == "out_state" and setup_in:
+                    if has_fact(x, ["$v == $i", "$v is $i", "$i == $v"], {"v": var, "i": x.expand(setup_in[0])}):
+                        took = True
+                elif isinstance(val, ast.Name) and val.id == var:
+                    if any(fa.kind == "atom" and norm.any_match(["$v != $i", "$v is not $i", "$i != $v"], fa.expr, {"v": var}) is not None for fa in x.facts):
+                        kept = True
+            ok = ok or (took and kept)
     chk.result(ok, "C01.pull", f"{f.key}:iter-operand", stores[0].where() if stores else f.where,
                "exactly the loop operand equal to the hoisted setup's in_state is replaced by its out_state",
                "the loop's iter operand is not redirected to the hoisted setup's out_state")
@@ -401,8 +444,14 @@ def hoist_if(repo: Repo, chk: Check) -> None:
     avail = None
     if first is not None:
         for fact in first.facts:
-            if fact.kind == "forall" and fact.domain is not None and norm.any_match(["$op.values", "$op.operands"], fact.domain, {"op": op}) is not None:
-                txt = fact.text
+            dom_, txt = None, fact.text
+            if fact.kind == "forall":
+                dom_ = fact.domain
+            elif fact.kind == "atom":
+                q = norm.qnf(fact.expr)  # `not any(.. for val in op.values)` and friends
+                if q is not None and q[0] == "all":
+                    dom_ = q[2]
+            if dom_ is not None and norm.any_match(["$op.values", "$op.operands"], dom_, {"op": op}) is not None:
                 if "get_operation_index" in txt or "is_before_in_block" in txt or "val_is_defined" in txt or "dominat" in txt:
                     avail = fact
     chk.result(avail is not None, "C01.hoist-if", f"{f.key}:values-available-in-if", first.where() if first else f.where,
